@@ -1,5 +1,10 @@
 (** * F_C01: clauses of C01 that the faithful model of the implementation REFUTES, with replayable
-    witnesses (exact reals / extended reals).  Compiled separately; never gates. *)
+    witnesses (exact reals).  Compiled separately; never gates.
+    The refutations of the solve height (D03), the image-solve focus, set_radius on a flat surface,
+    set_thickness(v, 0) with an infinite object and the conic pickup from a flat surface were removed when
+    /repo was repaired (fix: 0fb8939 a10a20f 301291d 6294181 0d43e86): those statements are now THEOREMS
+    (Props/C01.v: C01_mrh_solve_places, C01_image_solve_places, C01_set_radius_keeps_conic,
+    C01_set_thickness_infinite_object, C01_conic_pickup_succeeds). *)
 From Coq Require Import Reals ZArith List Bool String Lia Lra.
 From OV Require Import Ops RInst XR Gen.LensEdit Spec.S_ABCD Spec.S_C01 Model.Paraxial Model.M_C01
      Lemmas.L_Paraxial Lemmas.L_C01_solve.
@@ -7,39 +12,6 @@ Import ListNotations.
 Local Open Scope R_scope.
 
 Ltac normR := cbv -[ROps R R0 R1 Rplus Rminus Rmult Rdiv Ropp IZR Rinv not Rlt Rle Rgt Rge]; rops.
-
-(** D03  MarginalRayHeightSolve.apply divides by the slope BEHIND the surface (ua[idx]).
-    Witness: one refracting surface at z = 10, curvature 1/20, n 1 -> 2; ray y = 0, u = 1/10 from z = 0;
-    requested height 2.  Before: y = 1, slope behind 1/40.  The kernel moves the vertex to 50; the ray then
-    arrives at height 5.  (The correct offset, (2 - 1)/(1/10) = 10, is [L_C01_solve.mrh_ex].) *)
-Definition s1 := mkAS 10 (/ 20) 1 2 false false.
-Theorem mrh_solve_places_ray_refuted :
-  let st := (0, 1 / 10, 0) in
-  let rec := atrace [s1] st in
-  let zs' := k_c01_mrh_apply ROps (map fst rec) (map snd rec) 2 0 [a_z s1] 1 in
-  fst (nth 0 (atrace [mkAS (getZ (O:=ROps) zs' 0) (a_c s1) (a_n1 s1) (a_n2 s1) false false] st) (0, 0)) <> 2.
-Proof.
-  normR. intros H.
-  match type of H with context [?a / ?b] => match b with context [Rplus] => replace b with (1 / 40) in H by lra end end.
-  lra.
-Qed.
-
-(** image_solve divides by the slope behind the image surface; when the image surface separates two
-    media (glass in image space, image surface created with its default 'air') that slope differs from the
-    slope arriving and the marginal ray does not end on the axis.
-    Witness: image plane at z = 10 between n = 2 and n = 1; ray y = 0, u = 1/10 from z = 0: y = 1, slope
-    behind 1/5; the kernel moves the plane to 5 where the ray is at height 1/2. *)
-Definition img := mkAS 10 0 2 1 false false.
-Theorem image_solve_focus_refuted :
-  let st := (0, 1 / 10, 0) in
-  let rec := atrace [img] st in
-  let zs' := k_c01_image_solve ROps (map fst rec) (map snd rec) [a_z img] in
-  fst (nth 0 (atrace [mkAS (getZ (O:=ROps) zs' 0) 0 2 1 false false] st) (0, 0)) <> 0.
-Proof.
-  normR. intros H.
-  match type of H with context [?a / ?b] => match b with context [Rplus] => replace b with (1 / 5) in H by lra end end.
-  lra.
-Qed.
 
 (** D20  update() applies the pickups once, in declaration order: a chain declared target-first is left
     unsatisfied.  Witness: R2 = -R1 declared before R1 = -R0, after R0 was changed to 77. *)
@@ -60,28 +32,15 @@ Proof.
   normR. exists (mkP (O:=ROps) 1 ARadius 2 (-1) 0). split; [left; reflexivity|]. normR. intros H. lra.
 Qed.
 
-(** set_radius on a flat surface rebuilds it as StandardGeometry(radius, conic = 0): a conic constant set
-    earlier (set_conic stores it on the Plane object and SurfaceGroup.conic reads it back) is lost, so
-    the edit changes a second quantity. *)
-Definition splane : surf ROps := mkS (O:=ROps) 0 0 0 0 0 GPlane 0 (Some (-1)) [] 0%nat 0%nat false false false.
-Definition lplane : lens ROps := mkL (O:=ROps) [splane] [1] 0 [] [] [] [] (EPDt, 1).
-Theorem set_radius_changes_only_radius_refuted :
-  match set_radius lplane 50 0 with
-  | Some l' => map conic_read (surfs l') <> map conic_read (surfs lplane)
+(** set_index next to a mirror: only the two references on either side of the gap are replaced; the mirror's
+    other side keeps the old medium, so a reflecting surface ends up between two different media. *)
+Definition smir : surf ROps := mkS (O:=ROps) 0 0 5 0 0 GStd (-100) (Some 0) [] 0%nat 0%nat false true false.
+Definition lmir : lens ROps := mkL (O:=ROps) [sf 50; smir; sf 80] [1.5] 0 [] [] [] [] (EPDt, 1).
+Theorem set_index_keeps_mirror_media_refuted :
+  match set_index lmir 1.41 0 with
+  | Some l' => exists s, In s (surfs l') /\ s_refl s = true /\ s_mpre s <> s_mpost s
   | None => False
   end.
-Proof. normR. intros H. inversion H. lra. Qed.
-
-(** set_thickness(v, 0) with the object at infinity: delta = v - 0 + (-inf) = -inf is added to every
-    later vertex and then "positions -= positions[1]" computes (-inf) - (-inf): every vertex is NaN. *)
-Theorem set_thickness_infinite_object_refuted :
-  k_c01_set_thickness XOps (Fin 100) 0 [NInf; Fin 0; Fin 5; Fin 45] 4 = [NaN; NaN; NaN; NaN].
-Proof. reflexivity. Qed.
-
-(** a conic pickup whose source is a flat surface raises AttributeError (the model's [None]) although the
-    conic of that surface reads 0 *)
-Definition sflat : surf ROps := mkS (O:=ROps) 0 0 0 0 0 GPlane 0 None [] 0%nat 0%nat false false false.
-Theorem conic_pickup_from_plane_raises :
-  conic_read sflat = 0 /\
-  pickup_apply (mkL (O:=ROps) [sflat; sf 50] [1] 0 [] [] [] [] (EPDt, 1)) (mkP (O:=ROps) 0 AConic 1 1 0) = None.
-Proof. split; reflexivity. Qed.
+Proof.
+  normR. eexists. split; [right; left; reflexivity|]. split; [reflexivity|]. cbn. discriminate.
+Qed.
